@@ -92,6 +92,49 @@ theorem mem_mainActivities (m : AppManifest) (h : m.WF) (n : Str) :
     exact ⟨⟨a, ⟨ha, hl⟩, by simp only [List.any_eq_true]; exact ⟨f, hf, hfl.1⟩, rfl⟩,
       a, ⟨ha, hl⟩, by simp only [List.any_eq_true]; exact ⟨f, hf, hfl.2⟩, rfl⟩
 
+theorem wf_iff (m : AppManifest) : m.WF ↔ m.WF0 ∧ m.LauncherCoherent := by
+  unfold AppManifest.WF AppManifest.WF0 AppManifest.LauncherCoherent
+  constructor
+  · rintro ⟨h1, h2, h3, h4, h5, h6, h7, h8⟩; exact ⟨⟨h1, h2, h3, h4, h5, h6, h7⟩, h8⟩
+  · rintro ⟨⟨h1, h2, h3, h4, h5, h6, h7⟩, h8⟩; exact ⟨h1, h2, h3, h4, h5, h6, h7, h8⟩
+
+/-- `get_main_activities` on the XML of ANY manifest with non-empty names: androguard's by-name rule, no coherence assumed -/
+theorem mem_mainActivities_byName (m : AppManifest) (h : m.WF0) (n : Str) :
+    n ∈ (analyse (some m.toXml)).mainActivities ↔ m.IsMainName n := by
+  obtain ⟨_, _, _, _, _, hact, _⟩ := h
+  have hn : ∀ a ∈ (ordered m).filter Activity.live, a.name ≠ [] :=
+    fun a ha => hact a ((mem_ordered m a).1 (List.mem_filter.1 ha).1)
+  rw [mainActivities_eq, mem_dedup, List.mem_filter, List.contains_iff_mem,
+    mem_half _ hn .action (·.actions) actions_of, mem_half _ hn .category (·.categories) categories_of]
+  simp only [AppManifest.IsMainName, List.mem_filter, mem_ordered, Activity.hasMainAction, Activity.hasLauncherCategory]
+  constructor
+  · rintro ⟨⟨a, ⟨ha, hla⟩, hma, rfl⟩, b, ⟨hb, hlb⟩, hlb', hab⟩
+    exact ⟨⟨a, ha, hla, hma, rfl⟩, b, hb, hlb, hlb', hab⟩
+  · rintro ⟨⟨a, ha, hla, hma, rfl⟩, b, hb, hlb, hlb', hab⟩
+    exact ⟨⟨a, ⟨ha, hla⟩, hma, rfl⟩, b, ⟨hb, hlb⟩, hlb', hab⟩
+
+/-- on coherent manifests the by-name rule is Android's per-filter rule -/
+theorem isMainName_iff_perFilter (m : AppManifest) (hco : m.LauncherCoherent) (n : Str) :
+    m.IsMainName n ↔ ∃ a ∈ m.activities, a.isMain = true ∧ a.name = n := by
+  constructor
+  · rintro ⟨⟨a, ha, hla, hma, rfl⟩, b, hb, hlb, hlb', hab⟩
+    exact ⟨a, ha, by simp [Activity.isMain, hla, hco a ha b hb hla hlb hma hlb' hab.symm], rfl⟩
+  · rintro ⟨a, ha, hmain, rfl⟩
+    simp only [Activity.isMain, Bool.and_eq_true, List.any_eq_true] at hmain
+    obtain ⟨hl, f, hf, hfl⟩ := hmain
+    simp only [Filter.isLauncher, Bool.and_eq_true] at hfl
+    exact ⟨⟨a, ha, hl, by simp only [Activity.hasMainAction, List.any_eq_true]; exact ⟨f, hf, hfl.1⟩, rfl⟩,
+      a, ha, hl, by simp only [Activity.hasLauncherCategory, List.any_eq_true]; exact ⟨f, hf, hfl.2⟩, rfl⟩
+
+/-- … and a per-filter main activity is a by-name main activity on every manifest (the converse is what coherence adds) -/
+theorem perFilter_isMainName (m : AppManifest) (a : Activity) (ha : a ∈ m.activities) (hmain : a.isMain = true) :
+    m.IsMainName a.name := by
+  simp only [Activity.isMain, Bool.and_eq_true, List.any_eq_true] at hmain
+  obtain ⟨hl, f, hf, hfl⟩ := hmain
+  simp only [Filter.isLauncher, Bool.and_eq_true] at hfl
+  exact ⟨⟨a, ha, hl, by simp only [Activity.hasMainAction, List.any_eq_true]; exact ⟨f, hf, hfl.1⟩, rfl⟩,
+    a, ha, hl, by simp only [Activity.hasLauncherCategory, List.any_eq_true]; exact ⟨f, hf, hfl.2⟩, rfl⟩
+
 theorem mainActivities_nodup (xml : Option Node) : (analyse xml).mainActivities.Nodup := by
   unfold Analysis.mainActivities
   split
